@@ -204,7 +204,7 @@ Theorem C07_jsonrpc_surplus_refuted :
   jfits_all jfits (m_params m) args ->
   jservice_decode lower junmarshal_req jconv svc
     (snd (jclient_encode jmarshal_req counter name (args ++ extra) h)) = JSPanic.
-Proof. intros. eapply jsonrpc_surplus_panics; eassumption. Qed.
+Proof. intros. eapply (jsonrpc_surplus_panics lower jmarshal_req junmarshal_req (fun _ => None)); eassumption. Qed.
 Print Assumptions C07_jsonrpc_surplus_refuted.
 
 (* results: the id is echoed; nil is "no result"; one declared type takes the shaped value; several take the
